@@ -1,11 +1,21 @@
 #!/bin/bash
-# seedrun.sh <patch.diff> <check ids...>: apply a seeded change to /repo, run the checks, undo it
-patch=$1; shift
-git -C /repo apply $patch || exit 3
+# seedrun.sh <patch.diff> <check ids...>: run checks against a seeded change WITHOUT touching /repo: the change is applied to a
+# scratch worktree of /repo's HEAD and the harness is pointed at it (PYTHONPATH / VERIF_REPO); regenerated Lean files and replays
+# go to scratch directories.  --full as first argument: also build the Lean part (then the regenerated files DO go to
+# lean/TealerModel/Generated and are restored from /repo afterwards by the next ordinary run).
+full=0; [ "$1" = "--full" ] && { full=1; shift; }
+patch=$(readlink -f $1); shift
+wt=/tmp/seedrun_repo_$$
+git -C /repo worktree add -q --detach $wt HEAD || exit 3
+git -C $wt apply $patch || { git -C /repo worktree remove --force $wt; exit 3; }
+export PYTHONPATH=$wt VERIF_REPO=$wt VERIF_REPLAY_DIR=/tmp/seedrun_replays
+mkdir -p $VERIF_REPLAY_DIR
 for c in "$@"; do
-  out=$(cd /verif && ./check $c --skip-lean 2>&1 | grep -v WARNING | grep -v KNOWN-FINDING | tail -2 | tr '\n' ' ')
+  if [ $full = 1 ]; then
+    out=$(cd /verif && VERIF_REPLAY_DIR=$VERIF_REPLAY_DIR ./check $c --no-evidence 2>&1 | grep -v WARNING | grep -v KNOWN-FINDING | tail -2 | tr '\n' ' ')
+  else
+    out=$(cd /verif && VERIF_GEN_DIR=/tmp/seedrun_gen ./check $c --skip-lean 2>&1 | grep -v WARNING | grep -v KNOWN-FINDING | tail -2 | tr '\n' ' ')
+  fi
   echo "$c: $out"
 done
-git -C /repo checkout -- .
-# the evidence files must describe runs on the unchanged tree: put the committed ones back
-git -C /verif checkout -- evidence
+git -C /repo worktree remove --force $wt
